@@ -328,6 +328,36 @@ theorem extend_keeps_slots (m m' : StateModel α) (h : WF m) (entries : List (St
     rw [get_eq hw, hf, get_eq h]
     exact Spec.get_insertAll (feats m) entries name
 
+/-- the per-query state model of `SearchApp::build_search_instance`: the configured model extended
+    by `collect_features` (traversal-model, access-model and query features).  Whenever both steps
+    succeed the result is well-formed (so every slot theorem above applies to it), configured features
+    keep their slots, and the features that have a slot are exactly the configured ones plus every
+    feature named by the traversal model, the access model or the query -/
+theorem per_query_model (m m' : StateModel α) (h : WF m)
+    (traversal access : List (String × StateFeature α)) (user : Option (List (String × StateFeature α)))
+    (fs : List (String × StateFeature α)) (hc : collectFeatures traversal access user = .ok fs)
+    (he : m.extend fs = .ok m') :
+    WF m' ∧ (∀ name i, m.getIndex name = some i → m'.getIndex name = some i) ∧
+      ∀ name, (m'.getIndex name).isSome ↔
+        ((m.getIndex name).isSome ∨ name ∈ (traversal ++ access).map (·.1) ∨
+          name ∈ (user.getD []).map (·.1)) := by
+  obtain ⟨hw, hkeep, _, _⟩ := extend_keeps_slots m m' h fs he
+  refine ⟨hw, hkeep, ?_⟩
+  intro name
+  have hfs : fs = HMap.ofList (traversal ++ access) ++ user.getD [] := by
+    simp only [collectFeatures] at hc
+    split at hc
+    · cases hc
+    · simp only [Except.ok.injEq] at hc
+      exact hc.symm
+  have hf := (extend_ok h he).2
+  have e1 : ∀ (mm : StateModel α), WF mm → ((mm.getIndex name).isSome ↔ name ∈ (feats mm).map (·.1)) := by
+    intro mm hmm
+    rw [getIndex_eq hmm, ← not_iff_not]
+    simp only [Option.not_isSome_iff_eq_none, Spec.indexOf_eq_none_iff]
+  rw [e1 m' hw, e1 m h, hf, Spec.mem_keys_insertAll, hfs, Spec.ofList_eq_insertAll]
+  simp only [map_append, mem_append, Spec.mem_keys_insertAll, map_nil, not_mem_nil, false_or]
+
 /-- `extend` refuses (BuildError) exactly when it is not silent about a replaced feature: whenever it
     succeeds the loop recorded no overwrite by a feature of another kind -/
 theorem extend_ok_iff_no_kind_change (m : StateModel α) (entries : List (String × StateFeature α)) :
